@@ -959,6 +959,27 @@ pub fn parse_under(scheme: &str, text: &str, json: bool, out: &mut String) {
 
 /// the `txt` family: the text of valid records and near misses
 pub fn gen_txt(rng: &mut Rng, thorough: bool, out: &mut String) {
+    // unstructured strings: random printable text, random base64-alphabet text, arbitrary bytes
+    // (lossily converted), with and without the prefix
+    for i in 0..(if thorough { 1500 } else { 250 }) {
+        let len = match i % 5 {
+            0 => rng.below(8),
+            1 => rng.below(40),
+            _ => rng.below(420),
+        } as usize;
+        let body: String = match i % 3 {
+            0 => (0..len).map(|_| rng.range(0x20, 0x7e) as u8 as char).collect(),
+            1 => (0..len).map(|_| B64[rng.below(64) as usize] as char).collect(),
+            _ => String::from_utf8_lossy(&rng.bytes(len)).to_string(),
+        };
+        let text = if i % 2 == 0 { format!("enr:{body}") } else { body };
+        let scheme = *rng.pick(&REAL_SCHEMES);
+        writeln!(out, "txt scheme={} tag=x-junk expect=reject s={}", scheme, hx(text.as_bytes())).unwrap();
+        parse_under(scheme, &text, false, out);
+        let j = serde_json::to_string(&text).unwrap();
+        writeln!(out, "json scheme={} tag=x-junk expect=reject s={}", scheme, hx(text.as_bytes())).unwrap();
+        parse_under(scheme, &j, true, out);
+    }
     let n = if thorough { 150 } else { 40 };
     for r in 0..n {
         let kind = if r % 2 == 0 { Kind::Secp } else { Kind::Ed };
